@@ -29,6 +29,35 @@ def enc(x, ec):
         return '!%d' % segcorr.outcome_code(ex)
 
 
+def deep(x, ec, depth=0):
+    """the element by value: its encoding and, recursively, the names and encodings of its children"""
+    if depth > 4:
+        return ()
+    return (x.name, enc(x, ec), tuple(deep(c, ec, depth + 1) for c in x.children.list))
+
+
+def canonical_text(text, ec):
+    """a text whose parse -> encode is the identity: no blanks at the ends, no trailing delimiter"""
+    if not text or text != text.strip():
+        return False
+    return text[-1] not in (ec['FIELD'], ec['COMPONENT'], ec['SUBCOMPONENT'], ec['REPETITION'], ec['ESCAPE'], '\r')
+
+
+def absent_link(x, names):
+    """True when some link of the chain x.n1...nk has no listed element yet (judged from the children lists
+    and the structure DATA, without going through the lookup code); None when a name cannot be resolved"""
+    t = x
+    for n in names:
+        cn = canon(t, n)
+        if cn is None:
+            return None
+        lst = t.children.indexes.get(cn, [])
+        if not lst:
+            return True
+        t = lst[0]
+    return False
+
+
 def listing(x, ec):
     """the abstraction: ordered (identity, name, payload) of the children of x"""
     return [(id(c), c.name, enc(c, ec)) for c in x.children.list]
@@ -79,6 +108,8 @@ def spec_encode(x, spec, ec):
     """independent structure-order encoder of a Segment / complex Field / complex Component from the
     abstract list [(name, payload)]; None when the element is outside this encoder's domain"""
     lib = H.hl7apy.load_library(x.version)
+    if ec is None:
+        ec = x.encoding_chars
     by = {}
     for _, nm, pl in spec:
         by.setdefault(nm, []).append(pl)
@@ -134,7 +165,7 @@ class Expect(object):
         self.target = None
         self.rule = None
         I = impl.I
-        if k in ('add', 'remove', 'addhelper', 'addsegment', 'addgroup', 'dellistindex', 'setlistindex') or \
+        if k in ('add', 'remove', 'addhelper', 'addsegment', 'addgroup', 'dellistindex', 'setlistindex', 'removebyname') or \
                 (k in ('setattr', 'delattr', 'setindex', 'delindex') and len(op[2]) == 1):
             if 0 <= op[1] < len(I):
                 self.target = I[op[1]]
@@ -150,6 +181,8 @@ class Expect(object):
         self.rule = k
         if k in ('setattr', 'setindex', 'delattr', 'delindex'):
             self.cname = canon(x, op[2][0])
+        if k == 'removebyname':
+            self.cname = canon(x, op[2])
         if k in ('add', 'remove'):
             self.arg = I[op[2]] if 0 <= op[2] < len(I) else None
         # copy by value: the payload of a proxy / element right-hand side at the time of the call
@@ -183,7 +216,7 @@ class Expect(object):
         if k == 'dellistindex':
             j = self.op[2]
             return b[:j] + b[j + 1:], 'del children[i] deletes exactly the addressed child'
-        if k in ('delattr', 'delindex'):
+        if k in ('delattr', 'delindex', 'removebyname'):
             if self.cname is None:
                 return None, ''
             idx = 0 if k == 'delattr' else self.op[3]
@@ -303,11 +336,56 @@ def main(argv=None):
 
 
 def check_step(run, g, v, lvl, stats, shapes, state):
+    runner = H.run_message_history if isinstance(g, H.MsgGen) or getattr(g, 'message_level', False) else H.run_history
+
     def hook(impl, kk, op, phase, data):
         if phase == 'before':
             state['exp'] = Expect(impl, op)
+            state['absent'] = None
+            if op[0] in ('setvaluechain', 'setattr') and 0 <= op[1] < len(impl.I) and isinstance(op[2], list):
+                state['absent'] = absent_link(impl.I[op[1]], op[2] if op[0] == 'setvaluechain' else op[2][:-1])
             return
         stats['steps'] += 1
+        msg_level = isinstance(g, H.MsgGen) or getattr(g, 'message_level', False)
+        if op[0] == 'setvaluechain' and data[0] == 0 and state['absent'] and len(op[2]) == 1:
+            # parent.child.value = text on an ABSENT child appends it with the assigned content: the result is
+            # the one of the assignment by name, parent.child = text, in the same state
+            other = runner(v, g.ops + [['setattr', op[1], op[2], ['t', op[3]]]])
+            other = other[0] if isinstance(other, tuple) else other
+            if getattr(other, 'last_code', 0) == 0 and op[1] < len(other.I):
+                stats['value_vs_by_name'] = stats.get('value_vs_by_name', 0) + 1
+                a, b = deep(impl.I[op[1]], impl.ec), deep(other.I[op[1]], other.ec)
+                shapes.add((v, lvl, impl.I[op[1]].classname, 'value-through-proxy', len(op[2])))
+                if a != b:
+                    run.fail('value-differs-from-assignment', '%s.value = %r gives %r, the assignment by name %r'
+                             % ('.'.join(op[2]), op[3][:60], a[1][:150], b[1][:150]),
+                             rule='setvaluechain', target_class=impl.I[op[1]].classname, depth=len(op[2]),
+                             custom_delimiters=bool(getattr(g, 'ecs', None)), version=v, level=lvl,
+                             ops=g.ops + [op], step=kk)
+                    return
+        text = op[3] if op[0] == 'setvaluechain' else (op[3][1] if op[0] == 'setattr' and op[3][0] == 't' else None)
+        if msg_level and op[0] in ('setvaluechain', 'setattr') and data[0] == 0 and text and 0 <= op[1] < len(impl.I) \
+                and (state['absent'] or (op[0] == 'setattr' and len(op[2]) >= 2)):
+            # the assigned text is the content of the addressed child: it encodes as that text (canonical texts)
+            t = impl.I[op[1]]
+            for n in op[2]:
+                cn = canon(t, n)
+                lst = t.children.indexes.get(cn, []) if cn else []
+                t = lst[0] if lst else None
+                if t is None:
+                    break
+            if t is not None and canonical_text(text, t.encoding_chars) and not op[2][-1].lower().startswith('msh'):
+                stats['assigned_text_encoded'] = stats.get('assigned_text_encoded', 0) + 1
+                got = enc(t, None)
+                if got != text:
+                    via = 'value-through-proxy' if op[0] == 'setvaluechain' else 'assignment-below-unattached-parent'
+                    run.fail('assigned-text-not-encoded', '%s %s %r: the addressed child encodes as %r'
+                             % ('.'.join(op[2]), '.value =' if op[0] == 'setvaluechain' else '=', text[:60], got[:120]),
+                             rule=op[0], via=via, depth=len(op[2]), custom_delimiters=bool(getattr(g, 'ecs', None)),
+                             target_class=impl.I[op[1]].classname, version=v, level=lvl, ops=g.ops + [op], step=kk)
+                    return
+        if op[0] == 'setvaluechain':
+            return
         ex = state['exp']
         if data[0] != 0 or ex.target is None:
             return
@@ -354,7 +432,9 @@ def oracle_on_history(run, v, ops, lvl=None):
         pass
     g = G()
     g.ops = []
-    runner = H.run_message_history if any(o[0] == 'newmsg' for o in ops) else H.run_history
+    g.message_level = any(o[0] == 'newmsg' for o in ops)
+    g.ecs = next((o[3] for o in ops if o[0] == 'newmsg' and len(o) > 3 and o[3]), None)
+    runner = H.run_message_history if g.message_level else H.run_history
     stats = {'steps': 0, 'mutations_checked': 0, 'by_rule': {}, 'encodings_compared': 0, 'copies_checked': 0}
 
     def run_(hook):
